@@ -256,6 +256,41 @@ struct WorldGen {
   }
 };
 
+// a size argument (memory_above / kill_by_swap_usage thresholds) in one of the
+// documented forms together with its exact byte value, computed here with
+// integer arithmetic (independent of Util::parseSize*)
+struct SizeArg {
+  std::string text;
+  int64_t bytes;
+};
+inline SizeArg genSizeArg(int64_t totalBytes, int maxUnit = 3) {
+  SizeArg t;
+  int form = W({30, 25, 45});
+  if (form == 0) {
+    int n = R(0, 100);
+    t.text = std::to_string(n) + "%";
+    t.bytes = (int64_t)((__int128)totalBytes * n / 100);
+  } else if (form == 1) {
+    int64_t mb = R64(0, 1 << 20);
+    t.text = std::to_string(mb);
+    t.bytes = mb << 20;
+  } else {
+    int unit = R(0, maxUnit); // K M G T
+    static const char* U = "KMGT";
+    int64_t mant = unit == 3 ? R(0, 64) : R(0, 4096);
+    bool half = P(30);
+    int64_t mul = int64_t(1) << (10 * (unit + 1));
+    t.bytes = mant * mul + (half ? mul / 2 : 0);
+    t.text = std::to_string(mant) + (half ? ".5" : "") + std::string(1, U[unit]);
+    if (P(20)) {
+      int64_t extra = R(0, 4096);
+      t.text += " " + std::to_string(extra) + "K";
+      t.bytes += extra << 10;
+    }
+  }
+  return t;
+}
+
 // a `cgroup` argument: 1-3 comma separated patterns over the tree
 inline std::string genCgroupArg(const World& w, bool allowRoot = true) {
   std::vector<std::string> paths;
